@@ -39,6 +39,13 @@ type Driver struct {
 	// send queue the pool holds the message value, whose entries may alias the sender's memory
 	sentText map[uint64]string
 	sentSeq  uint64
+	// read ctxs (Low) handed out in ReadyToReads, by the replica that released them; ctxs
+	// reported dropped (the client retries)
+	released    map[uint64]uint64
+	droppedRead map[uint64]bool
+	// NoStage2 switches the second stage of the fault-free phase off (reads on every
+	// member and a membership change after the probe proposal completed)
+	NoStage2 bool
 }
 
 // pickDown chooses the replica to take down for the DownOne variant (0 = none).
@@ -158,6 +165,18 @@ func (d *Driver) Do(op string) Result {
 }
 
 func (d *Driver) afterUpdate(n *Node, ud *pb.Update) {
+	for _, rr := range ud.ReadyToReads {
+		if d.released == nil {
+			d.released = map[uint64]uint64{}
+		}
+		d.released[rr.SystemCtx.Low] = n.ID
+	}
+	for _, c := range ud.DroppedReadIndexes {
+		if d.droppedRead == nil {
+			d.droppedRead = map[uint64]bool{}
+		}
+		d.droppedRead[c.Low] = true
+	}
 	for _, m := range ud.Messages {
 		if m.To != n.ID && m.To != 0 {
 			if d.sentText == nil {
@@ -304,6 +323,11 @@ func (d *Driver) FairPhase(rounds int) string {
 	}
 	probeKey := uint64(0)
 	probeAt := 0
+	stage := 1
+	readWant := map[uint64]uint64{}
+	var readers []uint64
+	attempt := uint64(0)
+	newMember := uint64(97)
 	for round := 0; round < rounds && !d.Stopped; round++ {
 		// membership according to the most advanced replica
 		var best *Node
@@ -456,8 +480,74 @@ func (d *Driver) FairPhase(rounds int) string {
 					found = true
 				}
 			}
-			if found {
+			if found && (stage == 2 || d.NoStage2) {
+				if stage == 2 {
+					// every read was released by the replica it was issued on, the new member is
+					// known to every running member and runs (catch-up is part of `done`)
+					ok := true
+					servedAt := map[uint64]bool{}
+					for low, id := range readWant {
+						if d.released[low] == id {
+							servedAt[id] = true
+						}
+					}
+					for _, id := range readers {
+						if servedAt[id] {
+							continue
+						}
+						ok = false
+						// a read that was reported dropped, or got no answer for a while (it was
+						// forwarded to a leader that lost its office), is retried by the client
+						// under a fresh ctx
+						if _, running := c.Nodes[id]; running && (round-probeAt)%8 == 0 && !d.Stopped {
+							attempt++
+							low := 910000 + id + 1000*attempt
+							readWant[low] = id
+							d.Do(fmt.Sprintf("R %d %d 1", id, low))
+							if !d.Stopped {
+								d.Update(id)
+							}
+						}
+					}
+					for _, id := range ids {
+						if n := c.Nodes[id]; n != nil && !n.Mem.NonVotings[newMember] && !n.Mem.Voters[newMember] {
+							ok = false
+						}
+					}
+					if _, running := c.Nodes[newMember]; !running {
+						ok = false
+					}
+					if !ok {
+						continue
+					}
+				}
 				return ""
+			}
+			if found {
+				// second stage: a linearizable read on every member that serves reads and a
+				// membership change (a fresh non-voting member, which must be started and catch up)
+				stage = 2
+				probeAt = round
+				for _, id := range ids {
+					if members[id] == 'W' || d.Stopped {
+						continue
+					}
+					low := 910000 + id
+					readWant[low] = id
+					readers = append(readers, id)
+					d.Do(fmt.Sprintf("R %d %d 1", id, low))
+					if !d.Stopped {
+						d.Update(id)
+					}
+				}
+				if !d.Stopped {
+					cc := MakeCC(uint64(pb.AddNonVoting), newMember)
+					d.Do(fmt.Sprintf("CC %d %d %d %d %s", leader.ID, 920000, uint64(pb.AddNonVoting), newMember, vh.Hex(pb.MustMarshal(&cc))))
+					if !d.Stopped {
+						d.Update(leader.ID)
+					}
+				}
+				continue
 			}
 			probeKey = 0
 		}
@@ -540,6 +630,22 @@ func (d *Driver) FairPhase(rounds int) string {
 				down = " removed-replica-ahead-of-remaining-voters" + down
 			}
 		}
+	}
+	if stage == 2 {
+		var missing []string
+		servedAt := map[uint64]bool{}
+		for low, id := range readWant {
+			if d.released[low] == id {
+				servedAt[id] = true
+			}
+		}
+		for _, id := range readers {
+			if !servedAt[id] {
+				missing = append(missing, fmt.Sprintf("no read on replica %d was released (retried every 8 rounds)", id))
+			}
+		}
+		sort.Strings(missing)
+		return fmt.Sprintf("a proposal completed, but the reads issued on every member and the addition of non-voting replica %d did not complete with catch-up within the remaining fault-free rounds%s: %s;%s", newMember, down, strings.Join(missing, ", "), desc)
 	}
 	return fmt.Sprintf("no leader+commit+catch-up within %d fault-free rounds%s:%s", rounds, down, desc)
 }
